@@ -18,13 +18,19 @@ import (
 // Environment (everything else is the real code):
 //   * state store    = verifC30Store, typed in-memory map key -> SignedCheque
 //                      (deep copy on Put and Get = exact JSON round trip);
-//   * signature      = Dolev-Yao abstraction: the Signature bytes of a cheque
-//                      are an abstract token [ok-flag | 20 bytes signer]; the
-//                      RecoverChequeFunc handed to NewChequeStore decodes it
-//                      (error if the flag is clear, else the signer address).
-//                      Every (content, signature) pair may thus recover to any
-//                      address or fail - a superset of what ECDSA recovery can
-//                      do; the real ECDSA/EIP-712 code is outside the claim;
+//   * signature      = abstract signature scheme: the RecoverChequeFunc handed
+//                      to NewChequeStore is an UNINTERPRETED function of the
+//                      whole signed cheque (recipient, stated issuer, payout,
+//                      signature bytes): whether recovery succeeds and which
+//                      address it yields are arbitrary but deterministic in
+//                      (content, signature) - exactly what the code may assume
+//                      of ECDSA recovery. In particular the same signature
+//                      bytes on different contents may recover to different
+//                      addresses (a copied signature), and different
+//                      signatures may recover to the same one. The payout (an
+//                      unbounded integer) enters the function through its
+//                      index among the distinct payouts of the history. The
+//                      real ECDSA/EIP-712 code is outside the claim;
 //   * store keys     = lastReceivedChequeKey is replaced under gosym by
 //                      verifC30Key (prefix + "_" + lower-case hex of the
 //                      address) because the engine's Sprintf cannot format a
@@ -114,17 +120,61 @@ func (s *verifC30Store) Close() error                                          {
 
 var verifC30ErrBadSig = errors.New("verif: signature does not recover")
 
-const verifC30SigLen = 21
+// verifC30SigLen: signatures are arbitrary byte strings of this length (only
+// their identity matters to the abstract scheme).
+const verifC30SigLen = 3
 
-// verifC30Recover: the abstract signature scheme (see header).
+// verifC30Payouts: every payout the harness has put on a cheque so far; a
+// payout is named by the index of its first occurrence (equal payouts get
+// equal names, different payouts different names).
+var verifC30Payouts []*big.Int
+
+func verifC30PayoutID(p *big.Int) byte {
+	id := byte(0xff)
+	for i := len(verifC30Payouts) - 1; i >= 0; i-- {
+		if verifC30Payouts[i].Cmp(p) == 0 {
+			id = byte(i)
+		}
+	}
+	return id
+}
+
+// verifC30SigKey: injective encoding of (content, signature) of a cheque.
+func verifC30SigKey(c *SignedCheque) []byte {
+	k := make([]byte, 0, 41+len(c.Signature))
+	k = append(k, c.Recipient[:]...)
+	k = append(k, c.Beneficiary[:]...)
+	k = append(k, verifC30PayoutID(c.CumulativePayout))
+	return append(k, c.Signature...)
+}
+
+// verifC30SigEval: the abstract signature scheme as a total function of the
+// cheque: does (content, signature) recover, and to which address (branch-free,
+// so that the harness's own evaluation does not split paths).
+func verifC30SigEval(c *SignedCheque) (ok bool, a common.Address) {
+	key := verifC30SigKey(c)
+	ok = zzverif.BoolOf("sig-recovers", key)
+	// the recovered address ranges over the same address space as all others
+	// (verifC30AddrBytes arbitrary trailing bytes)
+	for w := 0; w*8 < verifC30AddrBytes; w++ {
+		v := zzverif.U64Of(verifC30SignerUF[w], key)
+		for j := 0; j < 8 && w*8+j < verifC30AddrBytes; j++ {
+			a[19-w*8-j] = byte(v >> (8 * uint(j)))
+		}
+	}
+	return
+}
+
+// verifC30Recover: the RecoverChequeFunc handed to NewChequeStore.
 func verifC30Recover(c *SignedCheque, chainID int64) (common.Address, error) {
-	if len(c.Signature) != verifC30SigLen || c.Signature[0]&1 == 0 {
+	ok, a := verifC30SigEval(c)
+	if !ok {
 		return common.Address{}, verifC30ErrBadSig
 	}
-	var a common.Address
-	copy(a[:], c.Signature[1:])
 	return a, nil
 }
+
+var verifC30SignerUF = [3]string{"sig-signer0", "sig-signer1", "sig-signer2"}
 
 // verifC30AddrBytes: number of symbolic (trailing) bytes of every address; the
 // leading bytes are zero (tier parameter; 20 = fully symbolic).
@@ -138,13 +188,14 @@ func verifC30Addr(name string) common.Address {
 
 // verifC30Cheque draws an arbitrary cheque: any recipient, any stated issuer
 // (Beneficiary field), any integer payout (negative ones included), any
-// signature token. Returns the cheque, whether the signature recovers at all
-// and the address it recovers to.
+// signature bytes. Returns the cheque, whether its signature recovers at all
+// (for this content) and the address it recovers to.
 func verifC30Cheque() (c *SignedCheque, sigOK bool, signer common.Address) {
 	payout := zzverif.BigNonNeg("payout")
 	if zzverif.Bool("negative") {
 		payout = new(big.Int).Neg(payout)
 	}
+	verifC30Payouts = append(verifC30Payouts, new(big.Int).Set(payout))
 	sig := zzverif.BytesN("sig", verifC30SigLen)
 	c = &SignedCheque{
 		Cheque: Cheque{
@@ -154,8 +205,10 @@ func verifC30Cheque() (c *SignedCheque, sigOK bool, signer common.Address) {
 		},
 		Signature: sig,
 	}
-	sigOK = sig[0]&1 != 0
-	copy(signer[:], sig[1:])
+	// what the signature scheme says about exactly this cheque (evaluated on
+	// a copy, before the code under test sees the cheque)
+	cp := verifC30Clone(c)
+	sigOK, signer = verifC30SigEval(&cp)
 	return
 }
 
@@ -178,6 +231,7 @@ func VerifC30_ChequeStoreFullAddress() {
 }
 
 func verifC30Run(steps int) {
+	verifC30Payouts = nil
 	self := verifC30Addr("self")
 	st := &verifC30Store{}
 	cs := NewChequeStore(st, self, verifC30Recover, 7)
